@@ -44,12 +44,13 @@ func init() {
 			"memory: runtime.MemStats.TotalAlloc delta <= 64 MiB + 40*len(image) + 16*bytes drained + 3*(sum of StreamBudget(rawLen) over the streams opened); a coarse measured proxy, not an instrumented allocator",
 			"goroutines: exact - when the walker returns, every goroutine started inside the bubble must have exited",
 		},
-		Real:     []string{"seehuhn.de/go/pdf Reader, SequentialScan, MakeReader, xref, scanner, filters, pagetree, page, extract.Font, textextract, reader, outline, nametree (working tree)"},
-		Stub:     []string{"stored image with injected corruption (simdisk)", "io.ReaderAt personality"},
-		Quick:    core.Budget{Runs: 24000, Secs: 150},
-		Thorough: core.Budget{Runs: 2000000, Secs: 900},
-		Run:      Run,
-		Corners:  corners,
+		Real:       []string{"seehuhn.de/go/pdf Reader, SequentialScan, MakeReader, xref, scanner, filters, pagetree, page, extract.Font, textextract, reader, outline, nametree (working tree)"},
+		Stub:       []string{"stored image with injected corruption (simdisk)", "io.ReaderAt personality"},
+		Quick:      core.Budget{Runs: 24000, Secs: 150},
+		Thorough:   core.Budget{Runs: 2000000, Secs: 900},
+		Run:        Run,
+		Corners:    corners,
+		WantProbes: []string{"walk time bound evaluated"},
 	})
 }
 
@@ -320,6 +321,7 @@ type stats struct {
 	opened  bool
 	seqOK   bool
 	capped  bool
+	runaway bool // an iteration had to be abandoned by the harness
 }
 
 // Walk runs every reading API over the image inside a bubble and applies the
@@ -342,6 +344,25 @@ func Walk(e *core.Env, img []byte, mode pdf.ReaderErrorHandling, password string
 	runtime.ReadMemStats(&ms1)
 	if core.WorkActive() {
 		calib(ticks, filterTicks, int64(len(img)), &st, pkg0)
+		// Simulated time outside the stream decoders (their share is C08's
+		// business and scales with the per-stream budgets): parsing, xref
+		// handling, page tree, fonts, CMaps, name trees, outlines.  The bound is
+		// affine in the input and in what was decoded; the calibration on the
+		// unchanged tree (24 000 runs) peaked at 13 M ticks, a third of which is
+		// the fixed cost of one composite font's CMap and code-space tables.
+		rest := ticks - filterTicks
+		bound := int64(24<<20)*int64(1+st.fonts+st.pages) + 4096*(int64(len(img))+st.drained)
+		e.Probe("walk time bound evaluated")
+		switch {
+		case rest > bound/2:
+			e.Probe("walk time above 50% of the bound")
+		case rest > bound/4:
+			e.Probe("walk time above 25% of the bound")
+		}
+		if rest > bound && !st.runaway {
+			e.Fail("work", map[string]string{"where": "walk"}, "%d work ticks outside the stream decoders for a %d byte image (%d bytes drained, %d pages, %d fonts); bound %d: not proportional to the input", rest, len(img), st.drained, st.pages, st.fonts, bound)
+			return
+		}
 	}
 	e.Steps(st.gets + st.streams + st.pages)
 	if st.opened {
@@ -358,6 +379,10 @@ func Walk(e *core.Env, img []byte, mode pdf.ReaderErrorHandling, password string
 	}
 	if st.capped {
 		e.Probe("drain cap reached")
+	}
+	if st.runaway {
+		e.Fail("work", map[string]string{"where": "name tree iteration"}, "iterating the /Dests name tree of a %d byte image did not end by itself (abandoned after 2^32 work ticks)", len(img))
+		return
 	}
 	if leaked {
 		e.Fail("goroutine-leak", nil, "a goroutine is still blocked after the walk returned and all readers were closed")
@@ -503,12 +528,20 @@ func walkReader(r *pdf.Reader, refsSet map[pdf.Reference]bool, st *stats, full b
 	}
 	if names, ok := meta.Catalog.Names.(pdf.Dict); ok {
 		if tr, err := nametree.ExtractFromFile(r, names["Dests"]); err == nil && tr != nil {
+			// no cap on the number of entries: the walk over a hostile tree
+			// has to end by the library's own bookkeeping.  The harness only
+			// stops counting once the simulated clock is far beyond any bound.
 			cnt := 0
+			w0 := core.WorkNow()
 			for range tr.All() {
 				cnt++
-				if cnt > 5000 {
+				if cnt&1023 == 0 && (core.WorkNow()-w0 > 1<<32 || !core.WorkActive() && cnt > 50_000_000) {
+					st.runaway = true
 					break
 				}
+			}
+			if st.runaway {
+				return
 			}
 			tr.Lookup("key0007")
 		}
